@@ -42,7 +42,8 @@ MODULES = {
                                  'use std::time::{Duration, Instant};', 'use crate::keys::Event::{Pressed, Released};', 'use std::thread;',
                                  'use crate::tablet_mode_switch_reader::TableModeEvent::{On, Off};', 'use crate::tablet_mode_switch_reader::TableModeEvent;']),
     'tablet_mode_switch_reader': dict(src='tablet_mode_switch_reader.rs', only=['enum TableModeEvent'], uses=[]),
-    'udev_utils': dict(src='udev_utils.rs', only=['fn escape_one_char', 'fn systemd_arg_escape']),
+    'udev_utils': dict(src='udev_utils.rs', only=['fn escape_one_char', 'fn systemd_arg_escape', 'fn build_exclude_text', 'fn build_service_text'],
+                       uses=[], outside_verus=True, make_pub=True),
 }
 
 
@@ -148,28 +149,38 @@ def assemble_module(asm, name, with_contracts=True):
             body.append((k, untokenize(out, atail), True, changed))
         else:
             body.append((k, ait['text'], True, 0))   # ghost / overlay-only item
-    asm.add('verus! {\n')
+    outside = cfg.get('outside_verus')
+    if outside:
+        asm.log.append('%s: the extracted items are emitted OUTSIDE verus! (compiled verbatim into the enumeration driver, not verified)' % name)
+    asm.add('verus! {\n' if not outside else '// plain Rust, verbatim from /repo (not verified)\n')
     for k, text, annotated, changed in body:
+        if cfg.get('make_pub') and k and k.startswith('fn '):
+            text = re.sub(r'(^|\n)(\s*)fn ', lambda mm: mm.group(1) + mm.group(2) + 'pub fn ', text, count=1)
         l0 = asm.line()
         asm.add(text)
         if not text.endswith('\n'): asm.add('\n')
         if k is not None:
             asm.items.append(dict(module=name, key=k, line_start=l0, line_end=asm.line() - 1,
                                   annotated=annotated, changed_tokens=changed))
-    asm.add('\n} // verus!\n')
+    asm.add('\n} // verus!\n' if not outside else '\n')
     if moved_out:
         asm.add('\n'.join(moved_out) + '\n')
     if cfg.get('post'): asm.add(cfg['post'])
     asm.add('} // mod %s\n' % name)
 
 
-def assemble(modules, spec_files=(), with_contracts=True, main='fn main() {}\n'):
+def assemble(modules, spec_files=(), with_contracts=True, main='fn main() {}\n', main_file=None):
+    if main_file: main = open(os.path.join(SPEC, main_file)).read()
     asm = Assembled()
     asm.add('#![feature(allocator_api, print_internals)]\n#![allow(unused_imports, dead_code, unused_variables, unused_mut, unused_assignments, non_snake_case, unused_parens, unused_braces)]\n'
             'use vstd::prelude::*;\n')
     if with_contracts:
         l0 = asm.line()
-        asm.add('pub mod prelude_specs {\nuse vstd::prelude::*;\nverus! {\n' + open(os.path.join(CONTRACTS, 'prelude.rs')).read() + '\n} // verus!\n}\n')
+        ptext = open(os.path.join(CONTRACTS, 'prelude.rs')).read()
+        def cond(mm):
+            return mm.group(2) if mm.group(1) in modules else ''
+        ptext = re.sub(r'//#if (\w+)\n(.*?)//#endif\n', cond, ptext, flags=re.S)
+        asm.add('pub mod prelude_specs {\nuse vstd::prelude::*;\nverus! {\n' + ptext + '\n} // verus!\n}\n')
         asm.items.append(dict(module='prelude', key='prelude', line_start=l0, line_end=asm.line() - 1, annotated=True, changed_tokens=0))
     for m in modules:
         assemble_module(asm, m, with_contracts)
